@@ -50,6 +50,9 @@ MCNext ==
           FQueue(typ, bs) /\ H([s |-> "q", typ |-> typ, bs |-> bs])
   \/ /\ started /\ n < MaxSteps
      /\ \E id \in Ids : FUpdate(id) /\ H([s |-> "upd", id |-> id])
+  \* StartSending in the middle of a program (at most once): what was queued goes out, what is queued later follows
+  \/ /\ started /\ n < MaxSteps /\ ~\E i \in DOMAIN hist : hist[i].s = "send"
+     /\ UNCHANGED fvars /\ H([s |-> "send"])
 
 MCSpec == MCInit /\ [][MCNext]_mcvars
 View == <<started, mode, initId, curId, opCount, builders, queued, n>>
